@@ -30,7 +30,12 @@ class StmtMixin:
         return self.spec_bool_node(st, node)
 
     def spec_bool_node(self, st, node):
-        v = self.ev(st, node, True)
+        # clauses are specifications: `/`, log, ... are total functions there (no definedness obligations)
+        self._suppress_side += 1
+        try:
+            v = self.ev(st, node, True)
+        finally:
+            self._suppress_side -= 1
         if isinstance(v, (Vec, MaskedVec)):
             raise Unsupported("vector-valued clause (use forall)")
         return self.to_bool(v)
